@@ -26,6 +26,17 @@ const (
 
 func decodeControlParameters(m Module, interest *spec.Interest) *mgmt.ControlArgs {
 	paramVal := interest.NameV[m.getManager().prefixLength()+2].Val
+	// The component must hold the complete ControlParameters TLV: a declared length that runs
+	// past the end of the component would otherwise be read as an empty ControlParameters.
+	header := enc.NewBufferReader(paramVal)
+	if _, err := enc.ReadTLNum(header); err != nil {
+		core.LogWarn(m, "Could not decode ControlParameters in ", interest.Name(), ": ", err)
+		return nil
+	}
+	if l, err := enc.ReadTLNum(header); err != nil || uint64(l) > uint64(len(paramVal)-header.Pos()) {
+		core.LogWarn(m, "Truncated ControlParameters in ", interest.Name())
+		return nil
+	}
 	params, err := mgmt.ParseControlParameters(enc.NewBufferReader(paramVal), true)
 	if err != nil {
 		core.LogWarn(m, "Could not decode ControlParameters in ", interest.Name(), ": ", err)
